@@ -1145,6 +1145,9 @@ func CheckSignatureFromKey(publicKey interface{}, algo SignatureAlgorithm, signe
 		}
 		return
 	case ed25519.PublicKey:
+		if len(pub) != ed25519.PublicKeySize {
+			return errors.New("x509: invalid Ed25519 public key length")
+		}
 		if !ed25519.Verify(pub, digest, signature) {
 			return errors.New("x509: Ed25519 verification failure")
 		}
